@@ -294,3 +294,23 @@ ENTRIES["C02"]["text"] += (" Props/C02c ([R]): NO DUPLICATES -- for a non-singul
 ENTRIES["C02"]["note"] = ("Completeness, closure and no-duplicates are theorems over the reals (no-duplicates under OtherShoulderRegular, shown necessary in the model: "
     "Real.arccos clamps where IEEE acos returns NaN); equal answer-set sizes for the pose of EVERY returned solution stays sampled (C02.same_count). Trusted: "
     "Lean kernel + 3 standard axioms; model tied by the differential run and the source translators.")
+
+ENTRIES["C02"]["text"] += (" Props/C02d ([R]): ANALYTIC SOUNDNESS on all eight branches -- for any pose with a unit quaternion, each raw candidate whose arm "
+    "branch reaches the wrist centre (square-root and arccos arguments in range, non-strict) places the wrist centre exactly (candidate_arm_sound); each "
+    "candidate with sin(theta5) != 0 has exactly the rotation matrix of the pose (candidate_wrist_sound, ZYZ decomposition, flips included); hence it "
+    "reproduces the pose as a rigid motion and is an answer of inverse_intern (candidate_sound, candidate_is_answer); when both shoulder configurations "
+    "reach and no row is wrist-singular inverse_intern / inverse return exactly the eight normalised candidates (all_reachable_eight_answers).")
+ENTRIES["C02"]["note"] = ("Completeness, closure, no-duplicates (under OtherShoulderRegular, shown necessary) and analytic soundness of all eight branches are theorems "
+    "over the reals; 'same size for the pose of each returned solution' follows where all branches reach and is otherwise sampled (C02.same_count). Trusted: Lean "
+    "kernel + 3 standard axioms; model tied by the differential run and the source translators.")
+ENTRIES["C06"]["text"] += (" Props/C02d ([R]): every 5-DOF answer built from a candidate whose arm branch reaches has EXACTLY the requested tool point and tool axis, "
+    "for any J6 (inverse5_candidate_exact), and when both shoulders reach there are exactly eight such answers (inverse5_eight_answers).")
+ENTRIES["C06"]["note"] = ("Over the reals the tool axis of every answer coming from a reaching branch is exact (C02d); answers admitted only by the 1 um tolerance of the position "
+    "check (unreachable branch within tolerance) and IEEE rounding are decided by the sampled predicate C06.axis. Trusted base as for C01.")
+
+ENTRIES["C02"]["text"] += (" Props/C02e ([R]): SAME SIZE -- the solver reads a pose only as a rigid motion (inverseIntern_congr_same: q and -q, equal rotation matrix), "
+    "so for every answer s that reproduces the pose as a rigid motion inverse_intern(forward s) is the SAME list (same_size_of_sound_answer); under the reach "
+    "conditions of C02d this holds for every one of the eight answers (same_size_for_every_answer).")
+ENTRIES["C02"]["note"] = ("All four clauses (completeness, same size, twin closure, no duplicates) are theorems over the reals under explicit reach / regularity hypotheses that "
+    "the generator's oracle also evaluates; answers admitted only by the 1 um / 1 urad tolerance of the cross-check and IEEE rounding stay sampled (predicates C02.*). "
+    "Trusted: Lean kernel + 3 standard axioms; model tied by the differential run and the source translators.")
